@@ -52,6 +52,7 @@ type Val struct {
 	Tuple  []Val         // tuple values (multi-result calls, comma-ok forms)
 	NonNil bool          // reference known to be non-nil
 	Str    *string       // string constants
+	Home *State // specification values taken from one side of a pair lemma: the state to read them in
 	Back *Loc // slice values: the array location backing the slice when it is a view of an array variable/field
 }
 
@@ -70,10 +71,12 @@ type State struct {
 	pc    string            // reachability condition (a Bool term)
 	fresh []string          // references allocated since function entry (for frame obligations)
 	dead  bool
+	pfx   map[string]string // component-key prefixes havoced wholesale -> epoch suffix
+	nm    string            // name prefix of the initial heap (pair lemma sides have separate heaps)
 }
 
 func (s *State) clone() *State {
-	n := &State{cells: make(map[*ssa.Alloc]Val, len(s.cells)), mem: make(map[string]string, len(s.mem)), epoch: s.epoch, pc: s.pc}
+	n := &State{cells: make(map[*ssa.Alloc]Val, len(s.cells)), mem: make(map[string]string, len(s.mem)), epoch: s.epoch, pc: s.pc, nm: s.nm}
 	for k, v := range s.cells {
 		n.cells[k] = v
 	}
@@ -81,6 +84,12 @@ func (s *State) clone() *State {
 		n.mem[k] = v
 	}
 	n.fresh = append([]string{}, s.fresh...)
+	if s.pfx != nil {
+		n.pfx = map[string]string{}
+		for k, v := range s.pfx {
+			n.pfx[k] = v
+		}
+	}
 	return n
 }
 
